@@ -11,7 +11,7 @@ import impl
 import modelio as M
 import popgen
 
-PRELUDE = "From GettsimModel Require Import Groupings.\nOpen Scope Z_scope.\n"
+PRELUDE = "From GettsimModel Require Import Groupings CoupleSpec.\nOpen Scope Z_scope.\n"
 
 
 def obligations(tier):
@@ -265,7 +265,8 @@ def u3(ctx, res):
     for qs, _got in model_cases:
         pl = "[" + "; ".join(coq_person(x) for x in qs) + "]"
         exprs.append(f"json_val (VList (map (fun l => VList (map VInt l)) (let ps := {pl} in let fg := fg_id ps in "
-                     f"[eg_id ps; ehe_id ps; sn_id_tot ps; fg; bg_id fg ps])))")
+                     f"[eg_id ps; ehe_id ps; sn_id_tot ps; fg; bg_id fg ps; "
+                     f"map (fun b : bool => if b then 1 else 0) [couple_wf_b einst ps; couple_wf_b ehep ps; flags_agree_b ps]])))")
     import concurrent.futures as cf
 
     shards = [list(range(i, len(exprs), 8)) for i in range(8)]
@@ -282,6 +283,13 @@ def u3(ctx, res):
             for i, r in prt:
                 qs, got = model_cases[i]
                 want = [got["eg_id"], got["ehe_id"], got["sn_id"] or [], got["fg_id"], got["bg_id"]]
+                # hypotheses of the unbounded theorems (CoupleSpec.couple_wf, flags_agree) on this valid table
+                hyp, r = r[5], r[:5]
+                stats["unbounded_theorem_hypotheses_hold"] = stats.get("unbounded_theorem_hypotheses_hold", 0) + (hyp == [1, 1, 1])
+                if hyp != [1, 1, 1]:
+                    stats.setdefault("hypotheses_fail_examples", [])
+                    if len(stats["hypotheses_fail_examples"]) < 3:
+                        stats["hypotheses_fail_examples"].append(dict(persons=qs, couple_wf_einst_ehep_flags=hyp))
                 if r != want:
                     stats["differences"] += 1
                     if stats["differences"] <= 3:
@@ -289,6 +297,9 @@ def u3(ctx, res):
                         res.add_violation("u3:model-vs-implementation", f"builders differ from the model on {qs}: implementation {want}, model {r}",
                                           dict(kind="u3", persons=qs, implementation=want, model=r), False)
     stats["model_cases"] = len(model_cases)
+    if model_cases and stats.get("unbounded_theorem_hypotheses_hold", 0) < len(model_cases):
+        res.machinery_errors.append(f"U3: the hypotheses of the unbounded unit theorems fail on {len(model_cases) - stats.get('unbounded_theorem_hypotheses_hold', 0)} "
+                                    f"well-formed generated tables: {stats.get('hypotheses_fail_examples')}")
     res.evaluations += stats["orders"]
     res.distinct += stats["structures"]
     res.samples += [dict(unit="U3", persons=qs, ids=got) for qs, got in model_cases[:2]]
